@@ -364,3 +364,29 @@ Lemma bs_for_step_ex c p b st st1 st2 (Q P : state -> Prop) :
 Proof.
   intros Hc Hb Hp (st' & Hl & HQ) HQP. exists st'. split; [|auto]. eapply bs_for_step; eauto.
 Qed.
+
+(* the same rules in front of an existentially quantified final state *)
+Section Ex.
+Variable P : outcome -> Prop.
+Lemma bs_seq_set_ex x e st z s2 : e st = Some z -> (exists o, bs s2 (setV st x z) o /\ P o) -> exists o, bs (SSeq (SSet x e) s2) st o /\ P o.
+Proof. intros H (o & B & HP). exists o. split; [eapply bs_seq_set; eauto|exact HP]. Qed.
+Lemma bs_seq_assoc_ex s1 s2 s3 st : (exists o, bs (SSeq s1 (SSeq s2 s3)) st o /\ P o) -> exists o, bs (SSeq (SSeq s1 s2) s3) st o /\ P o.
+Proof. intros (o & B & HP). exists o. split; [apply bs_seq_assoc; exact B|exact HP]. Qed.
+Lemma bs_seq_if_true_ex c s1 s2 s3 st : c st = Some true -> (exists o, bs (SSeq s1 s3) st o /\ P o) -> exists o, bs (SSeq (SIf c s1 s2) s3) st o /\ P o.
+Proof. intros H (o & B & HP). exists o. split; [eapply bs_seq_if_true; eauto|exact HP]. Qed.
+Lemma bs_seq_if_false_ex c s1 s2 s3 st : c st = Some false -> (exists o, bs (SSeq s2 s3) st o /\ P o) -> exists o, bs (SSeq (SIf c s1 s2) s3) st o /\ P o.
+Proof. intros H (o & B & HP). exists o. split; [eapply bs_seq_if_false; eauto|exact HP]. Qed.
+Lemma bs_seq_skip_ex s st : (exists o, bs s st o /\ P o) -> exists o, bs (SSeq SSkip s) st o /\ P o.
+Proof. intros (o & B & HP). exists o. split; [apply bs_seq_skip; exact B|exact HP]. Qed.
+Lemma bs_seq_loop_ex s1 s2 st st' : bs s1 st (ONormal st') -> (exists o, bs s2 st' o /\ P o) -> exists o, bs (SSeq s1 s2) st o /\ P o.
+Proof. intros B1 (o & B & HP). exists o. split; [eapply bs_seq; eauto|exact HP]. Qed.
+Lemma bs_seq_make_ex a n st k s2 : n st = Some k -> 0 <= k -> (exists o, bs s2 (setA st a (nrep 0 (Z.to_N k))) o /\ P o) ->
+  exists o, bs (SSeq (SMake a n) s2) st o /\ P o.
+Proof. intros H Hk (o & B & HP). exists o. split; [eapply bs_seq_make; eauto|exact HP]. Qed.
+Lemma bs_seq_load_ex x a i st k z s2 : i st = Some k -> 0 <= k -> nnth (Z.to_N k) (A st a) = Some z ->
+  (exists o, bs s2 (setV st x z) o /\ P o) -> exists o, bs (SSeq (SLoad x a i) s2) st o /\ P o.
+Proof. intros H Hk Hn (o & B & HP). exists o. split; [eapply bs_seq_load; eauto|exact HP]. Qed.
+Lemma bs_seq_store_ex a i v st k z s2 : i st = Some k -> v st = Some z -> 0 <= k -> (Z.to_N k < nlen (A st a))%N ->
+  (exists o, bs s2 (setA st a (nset (Z.to_N k) z (A st a))) o /\ P o) -> exists o, bs (SSeq (SStore a i v) s2) st o /\ P o.
+Proof. intros H Hv Hk Hn (o & B & HP). exists o. split; [eapply bs_seq_store; eauto|exact HP]. Qed.
+End Ex.
